@@ -42,6 +42,12 @@ class EvalMixin(InterpBase):
             return self.global_lookup(fr.module, name)
         except KeyError:
             pass
+        if fr.module.startswith("pyxfn:") and self.index.has_module(fr.module):
+            m = self.index.module(fr.module)
+            if name in m.functions:
+                return FuncRef(m.functions[name])
+            if name in ("c_cast_short", "c_cast_int", "c_cast_long", "c_cast_double", "c_cast_float", "cround", "trunc"):
+                return Opaque(("builtin", name))
         if fr.module.startswith("pyx:") and self.index.has_module(fr.module):
             m = self.index.module(fr.module)
             if name in m.classes:
@@ -774,6 +780,8 @@ class EvalMixin(InterpBase):
         if ci is None:
             if c.key.endswith(":Container") and len(args) == 1 and isinstance(args[0], DictV):
                 return args[0]        # construct.Container(dict): a dict with attribute access
+            if c.key.endswith(":ListContainer") and len(args) <= 1 and not kwargs:
+                return self.call_builtin("list", args, kwargs, fr)          # construct.ListContainer(iterable): a list subclass (printing only differs)
             raise Unsupported(f"instantiate external class {c.key}")
         vc = self.top.value_classes if self.top else {}
         obj = Obj(ci, {})
